@@ -684,6 +684,9 @@ theorem defaults_documented :
 example : ((fromDict (realEnv fun _ => false) (.map [])).toOption.bind (·.get? "request_policy")).bind
     (toRequestPolicy KskmGen.algorithmDNSSEC) = some documentedRequestPolicy := by decide +kernel
 
+def envWith (fe : String → Bool) (fb : Option CVal) : Env :=
+  { tbl := KskmGen.configSchema, algNames := KskmGen.algorithmDNSSEC, fileExists := fe, kskTtlFallback := fb }
+
 /-- the minimal configuration that omits `ksk_policy.ttl` while asking for it (`dns_ttl: 0`) -/
 def omittedKskTtl : CVal :=
   .map [(.str "ksk_policy", .map []), (.str "request_policy", .map [(.str "dns_ttl", .int 0)])]
@@ -698,15 +701,17 @@ theorem omitted_ksk_ttl_default (fe : String → Bool) :
     (KskmGen.dnsTtlFallback = none → fromDict (realEnv fe) omittedKskTtl = err .key) := by
   constructor
   · intro h
-    have : realEnv fe = { tbl := KskmGen.configSchema, algNames := KskmGen.algorithmDNSSEC, fileExists := fe,
-        kskTtlFallback := some (.int 172800) } := by simp [realEnv, h]
-    rw [this]
-    decide +kernel
+    have e : realEnv fe = envWith fe (some (.int 172800)) := by simp [realEnv, envWith, h]
+    rw [e]
+    rfl
   · intro h
-    have : realEnv fe = { tbl := KskmGen.configSchema, algNames := KskmGen.algorithmDNSSEC, fileExists := fe,
-        kskTtlFallback := none } := by simp [realEnv, h]
-    rw [this]
-    decide +kernel
+    have e : realEnv fe = envWith fe none := by simp [realEnv, envWith, h]
+    rw [e]
+    rfl
+
+/-- on the tree as it is now the option takes its default (F15 repaired, /repo 5c61e58); a regression
+    breaks this `decide` and the correspondence run exhibits `delete:ksk_policy.ttl` -/
+theorem omitted_ksk_ttl_default_now : KskmGen.dnsTtlFallback = some 172800 := by decide
 
 /-- the field validators the model has built in are the ones declared in the code now -/
 theorem before_validators_pinned :
